@@ -462,7 +462,7 @@ func meRenderDP(dp *measurev1.DataPoint) string {
 
 type meStats struct {
 	flushes, merges, queries int
-	rawExact                 int
+	rawExact, aggExact       int
 	grouped, topped, cut     bool
 	afterFlush               bool
 	multiBatchVec            bool
@@ -516,10 +516,10 @@ func runMeasureEngine(x *verifkit.Ctx, c meCase) (meStats, error) {
 				// known finding: the two plans emit the groups in different orders (and pick different representatives
 				// of a group without aggregation); while it is listed the groups are compared as a multiset
 				key := func(o meOut) string {
-					if q.Fn != "" {
-						return o.raw
-					}
 					var parts []string
+					if q.Fn != "" {
+						parts = append(parts, meFieldOf(o.fields, q.AggField))
+					}
 					for _, tf := range o.dp.GetTagFamilies() {
 						for _, tg := range tf.GetTags() {
 							for _, g := range q.GroupBy {
@@ -586,6 +586,13 @@ func runMeasureEngine(x *verifkit.Ctx, c meCase) (meStats, error) {
 					}
 				}
 			}
+			// reference for grouped aggregations whose window does not cut (C10 over real storage)
+			if len(q.GroupBy) > 0 && q.Fn != "" && q.TopN == 0 && q.Offset == 0 && q.Limit >= 1000 {
+				if rerr := q.checkAggregates(x, all, rowOut); rerr != nil {
+					return st, fmt.Errorf("%s: %v", what, rerr)
+				}
+				st.aggExact++
+			}
 			st.grouped = st.grouped || len(q.GroupBy) > 0
 			st.topped = st.topped || q.TopN > 0
 			st.indexedCrit = st.indexedCrit || q.Region != "" || q.ZoneCmp != ""
@@ -598,6 +605,154 @@ func runMeasureEngine(x *verifkit.Ctx, c meCase) (meStats, error) {
 		}
 	}
 	return st, nil
+}
+
+func (q meQuery) groupKeyOfRow(r meRow) string {
+	var parts []string
+	for _, g := range q.GroupBy {
+		switch g {
+		case "svc":
+			parts = append(parts, "svc=str:"+meSvc(r.Svc))
+		case "region":
+			parts = append(parts, "region=str:"+meRegion(r.Svc))
+		case "zone":
+			parts = append(parts, fmt.Sprintf("zone=int:%d", meZone(r.Svc)))
+		case "extra":
+			if r.ExNull {
+				parts = append(parts, "extra=null")
+			} else {
+				parts = append(parts, fmt.Sprintf("extra=int:%d", r.Extra))
+			}
+		}
+	}
+	return strings.Join(parts, " ")
+}
+
+func (q meQuery) groupKeyOfDP(dp *measurev1.DataPoint) string {
+	vals := map[string]string{}
+	for _, tf := range dp.GetTagFamilies() {
+		for _, tg := range tf.GetTags() {
+			switch v := tg.GetValue().GetValue().(type) {
+			case *modelv1.TagValue_Str:
+				vals[tg.GetKey()] = tg.GetKey() + "=str:" + v.Str.GetValue()
+			case *modelv1.TagValue_Int:
+				vals[tg.GetKey()] = fmt.Sprintf("%s=int:%d", tg.GetKey(), v.Int.GetValue())
+			default:
+				vals[tg.GetKey()] = tg.GetKey() + "=null"
+			}
+		}
+	}
+	var parts []string
+	for _, g := range q.GroupBy {
+		parts = append(parts, vals[g])
+	}
+	return strings.Join(parts, " ")
+}
+
+// checkAggregates compares a grouped aggregation response (no top-N, window not cutting) with the
+// documented definitions evaluated over the written rows that match: one data point per group, the
+// aggregate of the group's values (SUM, COUNT, MIN, MAX over the field's type; MEAN = sum / count in
+// the field's type). The known finding "MEAN below 1 is returned as 1" is honoured while it is listed.
+func (q meQuery) checkAggregates(x *verifkit.Ctx, all []meRow, out []meOut) error {
+	type acc struct {
+		is []int64
+		fs []float64
+	}
+	groups := map[string]*acc{}
+	for _, r := range all {
+		if !q.matches(r) {
+			continue
+		}
+		if (q.AggField == "value" && r.VNull) || (q.AggField == "fval" && r.FNull) {
+			return nil // aggregation over a null field: C15 known finding, no reference defined
+		}
+		k := q.groupKeyOfRow(r)
+		if groups[k] == nil {
+			groups[k] = &acc{}
+		}
+		groups[k].is = append(groups[k].is, r.V)
+		groups[k].fs = append(groups[k].fs, float64(r.FQ)/4)
+	}
+	want := map[string]string{}
+	for k, a := range groups {
+		if q.AggField == "value" {
+			var sum int64
+			mn, mx := a.is[0], a.is[0]
+			for _, v := range a.is {
+				sum += v
+				if v < mn {
+					mn = v
+				}
+				if v > mx {
+					mx = v
+				}
+			}
+			res := map[string]int64{"SUM": sum, "COUNT": int64(len(a.is)), "MIN": mn, "MAX": mx, "MEAN": 0}[q.Fn]
+			if q.Fn == "MEAN" {
+				res = sum / int64(len(a.is))
+				if float64(sum)/float64(len(a.is)) < 1 && x.KnownActive("mean-clamped-to-1") {
+					x.KnownExcluded("mean-clamped-to-1")
+					res = 1
+				}
+			}
+			want[k] = fmt.Sprintf("value=int:%d", res)
+		} else {
+			var sum float64
+			mn, mx := a.fs[0], a.fs[0]
+			for _, v := range a.fs {
+				sum += v
+				if v < mn {
+					mn = v
+				}
+				if v > mx {
+					mx = v
+				}
+			}
+			res := map[string]float64{"SUM": sum, "COUNT": float64(len(a.fs)), "MIN": mn, "MAX": mx, "MEAN": 0}[q.Fn]
+			if q.Fn == "MEAN" {
+				res = sum / float64(len(a.fs))
+				if res < 1 && x.KnownActive("mean-clamped-to-1") {
+					x.KnownExcluded("mean-clamped-to-1")
+					res = 1
+				}
+			}
+			want[k] = fmt.Sprintf("fval=float:%v", res)
+		}
+	}
+	got := map[string]string{}
+	for _, o := range out {
+		k := q.groupKeyOfDP(o.dp)
+		if _, dup := got[k]; dup {
+			return fmt.Errorf("aggregation %+v: group [%s] returned twice", q, k)
+		}
+		v := "<no field>"
+		for _, f := range o.dp.GetFields() {
+			if f.GetName() == q.AggField {
+				switch fv := f.GetValue().GetValue().(type) {
+				case *modelv1.FieldValue_Int:
+					v = fmt.Sprintf("%s=int:%d", f.GetName(), fv.Int.GetValue())
+				case *modelv1.FieldValue_Float:
+					v = fmt.Sprintf("%s=float:%v", f.GetName(), fv.Float.GetValue())
+				default:
+					v = f.GetName() + "=null"
+				}
+			}
+		}
+		got[k] = v
+	}
+	for k, w := range want {
+		if g, ok := got[k]; !ok {
+			return fmt.Errorf("aggregation %+v: group [%s] (%s) is missing from the response (%d groups returned, %d expected)", q, k, w, len(got), len(want))
+		} else if g != w {
+			return fmt.Errorf("aggregation %+v: group [%s]: response %s, reference %s", q, k, g, w)
+		}
+	}
+	for k := range got {
+		if _, ok := want[k]; !ok {
+			return fmt.Errorf("aggregation %+v: response holds group [%s] which no written row forms", q, k)
+		}
+	}
+	return nil
 }
 
 func meTexts(o []meOut) (s []string) {
@@ -804,6 +959,7 @@ func TestVerifMeasureEngineC15(t *testing.T) {
 			x.LabelIf(st.topped, "top-N")
 			x.LabelIf(st.cut, "limit/offset cuts a raw query")
 			x.LabelIf(st.rawExact > 0, "raw query checked against the written rows")
+			x.LabelIf(st.aggExact > 0, "aggregation checked against the reference")
 			x.LabelIf(st.indexedCrit, "criteria on an indexed tag")
 			x.LabelIf(st.multiBatchVec, "several columnar batches")
 			x.LabelIf(st.ties, "top-N tie resolved differently (accepted)")
@@ -814,5 +970,69 @@ func TestVerifMeasureEngineC15(t *testing.T) {
 			return nil
 		},
 		MinLabelFrac: map[string]float64{"flush": 0.5, "group-by": 0.3, "raw query checked against the written rows": 0.3, "criteria on an indexed tag": 0.3},
+	})
+}
+
+func TestVerifMeasureEngineC10(t *testing.T) {
+	verifkit.Run(t, verifkit.Spec[meCase]{
+		Property: "C10", Unit: "measure_engine",
+		Rule: "the histories and requests of C15 measure_engine_parity (real write callback, TSDB, flush/merge steps, both planners), with every query a " +
+			"group-by aggregation over 1..3 tags (entity, indexed and plain tags, nullable) with SUM/COUNT/MIN/MAX/MEAN over the int or float field and a " +
+			"window that does not cut; oracle: the row plan's response holds exactly one data point per group formed by the written rows that match " +
+			"(criteria, entity, time window), carrying the reference aggregate of the group; the columnar plan's response is the same multiset; " +
+			"non-trivial = an aggregation over >= 2 groups spread over >= 2 parts",
+		Known: []verifkit.Known[meCase]{{Key: "mean-clamped-to-1", Match: func(c meCase) bool {
+			for _, op := range c.Ops {
+				if op.Kind == "query" && op.Query.Fn == "MEAN" {
+					return true
+				}
+			}
+			return false
+		}}, {Key: "vec-group-order", Match: meGrouped}, {Key: "agg-over-null-field", Match: meAggOverNull},
+			{Key: "measure-index-conjunction-poisons-later-queries", Match: meTripleConjunction}},
+		Gen: func(t *rapid.T, ks *verifkit.KnownSet) meCase {
+			c := genMeCase(t, nil)
+			for _, op := range c.Ops {
+				if op.Kind != "query" {
+					continue
+				}
+				q := op.Query
+				if len(q.Tags) == 0 {
+					q.Tags = []string{rapid.SampledFrom([]string{"svc", "region", "zone", "extra"}).Draw(t, "gt")}
+				}
+				if len(q.Fields) == 0 {
+					q.Fields = []string{rapid.SampledFrom([]string{"value", "fval"}).Draw(t, "gf")}
+				}
+				k := rapid.IntRange(1, len(q.Tags)).Draw(t, "ng")
+				q.GroupBy = append([]string(nil), q.Tags[:k]...)
+				q.AggField = q.Fields[0]
+				q.Fn = rapid.SampledFrom([]string{"SUM", "COUNT", "MIN", "MAX", "MEAN"}).Draw(t, "gfn")
+				q.TopN, q.TopField, q.Limit, q.Offset = 0, "", 1000, 0
+				if len(q.Svcs) > 0 && q.Region != "" && q.ZoneCmp != "" {
+					q.Region = "" // C15 known finding measure-index-conjunction-poisons-later-queries
+				}
+			}
+			for _, op := range c.Ops {
+				for i := range op.Rows {
+					op.Rows[i].VNull, op.Rows[i].FNull = false, false // aggregation over a null field: C15 known finding
+				}
+			}
+			return c
+		},
+		Check: func(x *verifkit.Ctx, c meCase) error {
+			st, err := runMeasureEngine(x, c)
+			if err != nil {
+				return err
+			}
+			x.LabelIf(st.flushes > 0, "flush")
+			x.LabelIf(st.merges > 0, "merge")
+			x.LabelIf(st.aggExact > 0, "aggregation checked against the reference")
+			x.LabelIf(st.indexedCrit, "criteria on an indexed tag")
+			if st.aggExact > 0 && st.flushes >= 2 {
+				x.NonTrivial()
+			}
+			return nil
+		},
+		MinLabelFrac: map[string]float64{"aggregation checked against the reference": 0.8, "flush": 0.5},
 	})
 }
